@@ -521,6 +521,10 @@ impl FromStr for Data {
         if data.is_empty() {
             return Err(RawParseError::EmptyString);
         }
+        if !data.is_ascii() {
+            // Everything below works on bytes and slices them into `&str`s.
+            return Err(RawParseError::Syntax);
+        }
         if let Ok(mv) = uci::Move::from_str(data) {
             return Ok(Self::Uci(mv));
         }
@@ -537,6 +541,9 @@ impl FromStr for Data {
                 _ => unreachable!(),
             };
             let bytes = &bytes[1..];
+            if bytes.len() < 2 {
+                return Err(RawParseError::InvalidDst(CoordParseError::BadLength));
+            }
             let (bytes, dst_bytes) = bytes.split_at(bytes.len() - 2);
             let dst = Coord::from_str(str::from_utf8(dst_bytes).unwrap())?;
             let (file, bytes) = match bytes.first() {
